@@ -2171,7 +2171,13 @@ def _run_spectrum_method(meth, data, mask, ns, folded):
     def ah(ex_, fref, a, kw, ctx):
         if (isinstance(fref, ClassRef) and fref.node.name == 'Spectrum') or (isinstance(fref, Tm) and 'Spectrum' in fref.op):
             t = Tm('made%d' % len(made))
-            made.append((a[0], dict(kw), t))
+            kw = dict(kw)
+            # constructor semantics (trusted): the mask given is kept, and unless mask_corners=False is passed the all-zero and all-n corners are masked too
+            if kw.get('mask_corners', True) is not False and isinstance(kw.get('mask'), VList):
+                shp = ex_.list_method(kw['mask'], 'shape')
+                given = kw['mask']
+                kw['mask'] = _nd_build(shp, lambda idx: True if (all(i == 0 for i in idx) or all(i == s_ - 1 for i, s_ in zip(idx, shp))) else _nd_get(given, idx))
+            made.append((a[0], kw, t))
             return t
         return NotImplemented
     ex = Executor(policy=lambda fr: 'inline' if fr.qualname in ('Spectrum.' + meth, 'reverse_array') else 'abstract', getattr_hook=gh)
@@ -2689,23 +2695,35 @@ def c14_to_file_wiring():
 
 
 def c02_const_2d(n, frozen=()):
-    """_two_pops_const_params on an n x n grid with xx[0] = 0, xx[-1] = 1 and every other value symbolic, one step (T - initial_t <= dt).
-    _compute_delj is answered by its contract (entry = delj(M at that midpoint, grid spacing and V at that midpoint *along the swept axis*), an
-    uninterpreted function of those three values), so a sweep that takes its weights from the wrong population's drift fails.
+    return c02_const_kd(2, n, frozen)
+
+
+def c02_const_kd(K, n, frozen=()):
+    """_two_pops_const_params / _three_pops_const_params on an n^K grid with xx[0] = 0, xx[-1] = 1 and every other value symbolic, one step
+    (T - initial_t <= dt).  _compute_delj is answered by its contract (entry = delj(M at that midpoint, grid spacing and V at that midpoint *along
+    the swept axis*), an uninterpreted function of those three values), so a sweep that takes its weights from the wrong population's drift fails.
     The precalc kernels receive, entry by entry, the a, b, c of compute_abc_nobc (contracts/c_shared) without the 1/dt the kernel adds:
-      x sweep, line y_j:  V = x(1-x)/nu1,  M = m12 (y_j - x) + 2 gamma1 x(1-x)(h1+(1-2h1)x) at x midpoints;   y sweep symmetrically with (nu2, m21, gamma2, h2);
-      absorbing terms only at [0,0] and [-1,-1];  x sweep then y sweep, a frozen population's sweep skipped, influx called first with the flags."""
+      sweep of population p along its axis, the others at grid values x_q:  V = x(1-x)/nu_p,
+      M = sum_{q != p} m_pq (x_q - x) + 2 gamma_p x(1-x)(h_p+(1-2h_p)x) at the midpoints;
+      absorbing terms only at the all-zero and all-one corners;  sweeps in population order, a frozen population's sweep skipped, influx called
+      first with theta0 and the flags."""
     frozen = tuple(frozen)
-    oid = 'C02/Integration.py:_two_pops_const_params/system.n%d%s' % (n, ('.frozen' + ''.join(map(str, frozen))) if frozen else '')
-    fn = 'dadi/Integration.py::_two_pops_const_params'
+    name = {2: '_two_pops_const_params', 3: '_three_pops_const_params'}[K]
+    oid = 'C02/Integration.py:%s/system.n%d%s' % (name, n, ('.frozen' + ''.join(map(str, frozen))) if frozen else '')
+    fn = 'dadi/Integration.py::' + name
 
     @guarded(oid, fn)
     def go():
-        T, t0 = z3.Reals('T t0')
-        nu1, nu2, m12, m21, g1, g2, h1, h2, th = z3.Reals('nu1 nu2 m12 m21 gamma1 gamma2 h1 h2 theta0')
+        T, t0, th = z3.Reals('T t0 theta0')
+        nu = [z3.Real('nu%d' % (p + 1)) for p in range(K)]
+        gm = [z3.Real('gamma%d' % (p + 1)) for p in range(K)]
+        hh = [z3.Real('h%d' % (p + 1)) for p in range(K)]
+        mig = {(p, q): z3.Real('m%d%d' % (p + 1, q + 1)) for p in range(K) for q in range(K) if p != q}
         xs = [z3.RealVal(0)] + reals('x', n - 2) + [z3.RealVal(1)]
-        ph = [reals('phi%d_' % i, n) for i in range(n)]
-        hy = [T > t0, t0 >= 0, nu1 > 0, nu2 > 0, m12 >= 0, m21 >= 0, th >= 0] + [xs[i] < xs[i + 1] for i in range(n - 1)]
+        shape = (n,) * K
+        f0 = {idx: z3.Real('phi' + '_'.join(map(str, idx))) for idx in itertools.product(*[range(n)] * K)}
+        phi = _nd_build(shape, lambda idx: f0[idx])
+        hy = [T > t0, t0 >= 0, th >= 0] + [v > 0 for v in nu] + [v >= 0 for v in mig.values()] + [xs[i] < xs[i + 1] for i in range(n - 1)]
         delj = uf('delj', 3)
         calls = []
 
@@ -2721,42 +2739,48 @@ def c02_const_2d(n, frozen=()):
                 def cdj(ex_, f_, a, k_):
                     dxs, MInt, VInt = a[0], a[1], a[2]
                     axis = k_.get('axis', a[3] if len(a) > 3 else 0)
-                    rows = [ex_.iterate(r) for r in ex_.iterate(MInt)]
                     dl, vl = ex_.iterate(dxs), ex_.iterate(VInt)
-                    return VList([VList([delj(to_real(exact(rows[i][j])), to_real(exact(dl[(i, j)[axis]])), to_real(exact(vl[(i, j)[axis]]))) for j in range(len(rows[i]))], 'ndarray')
-                                  for i in range(len(rows))], 'ndarray')
+                    shp = ex_.list_method(MInt, 'shape')
+                    return _nd_build(shp, lambda idx: delj(to_real(exact(_nd_get(MInt, idx))), to_real(exact(dl[idx[axis]])), to_real(exact(vl[idx[axis]]))))
                 return cdj
-            if q == '_inject_mutations_2D':
+            if q == '_inject_mutations_%dD' % K:
                 def inj(ex_, f_, a, k_):
                     calls.append(('inject', list(a)))
                     return None
                 return inj
-            if q in ('_Mfunc2D', '_Vfunc', '_compute_dfactor', '_two_pops_const_params'):
+            if q in ('_Mfunc2D', '_Mfunc3D', '_Vfunc', '_compute_dfactor', name):
                 return 'inline'
             return 'abstract'
+        axes = 'xyz'[:K]
 
         def ah(ex_, fref, a, kw, ctx):
             nm = vrepr(fref)
-            for k in ('implicit_precalc_2Dx', 'implicit_precalc_2Dy'):
+            for ax_ in axes:
+                k = 'implicit_precalc_%dD%s' % (K, ax_)
                 if k in nm:
                     calls.append((k, list(a)))
-                    return Tm('phi_after_' + k[-1])
+                    return Tm('phi_after_' + ax_)
             return NotImplemented
         ex = Executor(policy=policy, max_paths=64)
         ex.abstract_hook = ah
         ex.module_overrides[('dadi.Integration', 'cuda_enabled')] = False
-        f = ex.func('dadi/Integration.py', '_two_pops_const_params')
-        phi = VList([VList(list(r), 'ndarray') for r in ph], 'ndarray')
-        kw = dict(nu1=nu1, nu2=nu2, m12=m12, m21=m21, gamma1=g1, gamma2=g2, h1=h1, h2=h2, theta0=th, initial_t=t0,
-                  frozen1=1 in frozen, frozen2=2 in frozen)
+        f = ex.func('dadi/Integration.py', name)
+        kw = dict(theta0=th, initial_t=t0)
+        for p in range(K):
+            kw['nu%d' % (p + 1)] = nu[p]
+            kw['gamma%d' % (p + 1)] = gm[p]
+            kw['h%d' % (p + 1)] = hh[p]
+            kw['frozen%d' % (p + 1)] = (p + 1) in frozen
+        for (p, q), v in mig.items():
+            kw['m%d%d' % (p + 1, q + 1)] = v
         paths = ex.explore(lambda e: e.apply(f.node, None, f.mod, [phi, VList(list(xs), 'ndarray'), T], kw, 'f'), base_pc=hy)
         rets = [p for p in paths if p.outcome == 'return']
         if len(rets) != 1 or len(paths) != 1:
             return [struct(oid, False, 'expected exactly one (returning) path on a [0,1] grid: %r' % paths[:3], fn, undecided=True)]
-        p = rets[0]
-        pc = list(p.pc)
+        pth = rets[0]
+        pc = list(pth.pc)
         out = []
-        want_seq = ['inject'] + (['implicit_precalc_2Dx'] if 1 not in frozen else []) + (['implicit_precalc_2Dy'] if 2 not in frozen else [])
+        want_seq = ['inject'] + ['implicit_precalc_%dD%s' % (K, axes[p]) for p in range(K) if (p + 1) not in frozen]
         out.append(struct(oid + '.sequence', [c[0] for c in calls] == want_seq, 'one step = %s (got %s)' % (want_seq, [c[0] for c in calls]), fn))
         dx = lambda k: xs[k + 1] - xs[k]
         xi = lambda k: (xs[k + 1] + xs[k]) / 2
@@ -2765,35 +2789,33 @@ def c02_const_2d(n, frozen=()):
         for c in calls:
             if c[0] == 'inject':
                 a = c[1]
-                ok = len(a) >= 9 and a[0] is phi and is_scalar(exact(a[1])) and a[4] is th and a[5] is (1 in frozen) and a[6] is (2 in frozen)
-                out.append(struct(oid + '.influx-call', bool(ok), '_inject_mutations_2D(phi, this_dt, xx, yy, theta0, frozen1, frozen2, nomut1, nomut2)', fn))
+                ok = len(a) >= 3 + K + K and a[0] is phi and a[2 + K] is th and all(a[3 + K + p] is ((p + 1) in frozen) for p in range(K))
+                out.append(struct(oid + '.influx-call', bool(ok), '_inject_mutations_%dD(phi, this_dt, grids..., theta0, frozen flags...)' % K, fn))
                 out.append(prove_eq(oid + '.influx-dt', pc, a[1], T - t0, fn))
                 continue
-            swept = 0 if c[0].endswith('x') else 1
-            nu, mig, g, h = (nu1, m12, g1, h1) if swept == 0 else (nu2, m21, g2, h2)
+            swept = axes.index(c[0][-1])
             A, B, C, dtv = c[1][1], c[1][2], c[1][3], c[1][4]
             tag = '%s.%s' % (oid, c[0][-2:])
             out.append(prove_eq(tag + '.dt', pc, dtv, T - t0, fn))
-            V = lambda x: x * (1 - x) / nu
-            get = lambda arr, i, j: to_real(exact(arr.items[i].items[j]))
-            for i in range(n):
-                for j in range(n):
-                    k, o = ((i, j)[swept], (i, j)[1 - swept])      # k: index along the swept axis, o: the other population's grid index
-                    Mm = lambda kk: mig * (xs[o] - xi(kk)) + sel(xi(kk), g, h)
-                    dj = lambda kk: delj(Mm(kk), dx(kk), V(xi(kk)))
-                    sa = z3.RealVal(0) if k == 0 else Delta(k) * (-Mm(k - 1) * dj(k - 1) - V(xs[k - 1]) / (2 * dx(k - 1)))
-                    sc = z3.RealVal(0) if k == n - 1 else Delta(k) * (Mm(k) * (1 - dj(k)) - V(xs[k + 1]) / (2 * dx(k)))
-                    sb = z3.RealVal(0)
-                    if k <= n - 2:
-                        sb = sb + Delta(k) * (Mm(k) * dj(k) + V(xs[k]) / (2 * dx(k)))
-                    if k >= 1:
-                        sb = sb + Delta(k) * (-Mm(k - 1) * (1 - dj(k - 1)) + V(xs[k]) / (2 * dx(k - 1)))
-                    if i == 0 and j == 0:
-                        sb = sb + (z3.RealVal(1) / 2 / nu) * 2 / dx(0)                # M at the corner is 0 on a [0,1] grid
-                    if i == n - 1 and j == n - 1:
-                        sb = sb + (z3.RealVal(1) / 2 / nu) * 2 / dx(n - 2)
-                    for nm_, arr, want in (('a', A, sa), ('b', B, sb), ('c', C, sc)):
-                        out.append(prove_eq('%s.%s[%d,%d]' % (tag, nm_, i, j), pc, get(arr, i, j), want, fn, timeout_ms=30000, finding_key='C02/const2d/' + nm_, z3_first_ms=250))
+            V = lambda x: x * (1 - x) / nu[swept]
+            for idx in f0:
+                k = idx[swept]
+                Mm = lambda kk: sum((mig[(swept, q)] * (xs[idx[q]] - xi(kk)) for q in range(K) if q != swept), z3.RealVal(0)) + sel(xi(kk), gm[swept], hh[swept])
+                dj = lambda kk: delj(Mm(kk), dx(kk), V(xi(kk)))
+                sa = z3.RealVal(0) if k == 0 else Delta(k) * (-Mm(k - 1) * dj(k - 1) - V(xs[k - 1]) / (2 * dx(k - 1)))
+                sc = z3.RealVal(0) if k == n - 1 else Delta(k) * (Mm(k) * (1 - dj(k)) - V(xs[k + 1]) / (2 * dx(k)))
+                sb = z3.RealVal(0)
+                if k <= n - 2:
+                    sb = sb + Delta(k) * (Mm(k) * dj(k) + V(xs[k]) / (2 * dx(k)))
+                if k >= 1:
+                    sb = sb + Delta(k) * (-Mm(k - 1) * (1 - dj(k - 1)) + V(xs[k]) / (2 * dx(k - 1)))
+                if all(i == 0 for i in idx):
+                    sb = sb + (z3.RealVal(1) / 2 / nu[swept]) * 2 / dx(0)                # M at the corner is 0 on a [0,1] grid
+                if all(i == n - 1 for i in idx):
+                    sb = sb + (z3.RealVal(1) / 2 / nu[swept]) * 2 / dx(n - 2)
+                for nm_, arr_, want in (('a', A, sa), ('b', B, sb), ('c', C, sc)):
+                    out.append(prove_eq('%s.%s[%s]' % (tag, nm_, ','.join(map(str, idx))), pc, to_real(exact(_nd_get(arr_, idx))), want, fn, timeout_ms=30000,
+                                        finding_key='C02/const%dd/%s' % (K, nm_), z3_first_ms=250))
         return out
     return go()
 
